@@ -2,7 +2,9 @@ SPECIFICATION Spec
 CONSTANTS
   Chunk = 2
   Limit = 8
-  MaxStream = 3
+  StreamLens <- SL3
+  PullSizes <- PS12
+  PullFixed = FALSE
   MaxRoutes = 2
   MaxSubRoutes = 1
   Shapes <- ShapesSmall
